@@ -242,4 +242,17 @@ contained in everything) -/
 def contained (lv : Int) (a b : Slots α) : Bool :=
   if lv = 0 then decide (a = b) || !nonEmpty a else contL lv a b
 
+/-! ## specification vocabulary: paths that an update leaves alone -/
+
+/-- `other` does not overwrite the path `p`: walking `p` in `other` meets an absent key while
+still inside dictionaries of `other` (the empty path is the dictionary itself, which an update
+changes in general; a path through or onto a leaf of `other` is overwritten) -/
+def untouchedL : Slots α → List Nat → Bool
+  | _, [] => false
+  | o, k :: p =>
+    match getSlot o k with
+    | none => true
+    | some (.leaf _) => false
+    | some (.dict y) => untouchedL y p
+
 end Lena.C07
